@@ -1,8 +1,10 @@
 package psim
 
 import (
+	"archive/zip"
 	"encoding/json"
 	"fmt"
+	"io"
 	"os"
 	"path"
 	"path/filepath"
@@ -44,7 +46,7 @@ type CrashSpec struct {
 // StallSpec freezes every process for D at controller step AtStep.
 type StallSpec struct {
 	AtStep int           `json:"at_step"`
-	AtJob  int           `json:"at_job,omitempty"` // if > 0: AtStep counts from the start of the AtJob-th job process
+	AtJob  int           `json:"at_job,omitempty"`  // if > 0: AtStep counts from the start of the AtJob-th job process
 	AtSlow bool          `json:"at_slow,omitempty"` // AtStep counts from the moment a "slow" job is in its long computation
 	D      time.Duration `json:"d"`
 }
@@ -78,25 +80,25 @@ type RunCfg struct {
 	SplitFiles       bool // write the program as call file + included declarations
 	RestartTransform string
 	ExtraFiles       bool
-	QuickRestart     int    // if > 0: the operator restarts after QuickRestart-1 steps of the orphans\' reactions
-	LinkDirs         bool   // stages may report outputs through a symlinked sub-directory of files/
-	DirOutputs       bool   // a file-typed output may be a directory holding several files
+	QuickRestart     int  // if > 0: the operator restarts after QuickRestart-1 steps of the orphans\' reactions
+	LinkDirs         bool // stages may report outputs through a symlinked sub-directory of files/
+	DirOutputs       bool // a file-typed output may be a directory holding several files
 	// Stalls: at controller step AtStep every process of the machine stops for D of
 	// simulated time (a hung file server, a frozen VM): nothing runs, the clock goes on
-	Stalls           []StallSpec
+	Stalls []StallSpec
 	// Overrides is the content of the --overrides file: partially qualified node
 	// name -> {"force_volatile": bool, "chunk.threads": x, ...}
-	Overrides        map[string]map[string]interface{}
-	AllSlow          bool   // every job computes for ten simulated minutes
-	MarkSuperseded   bool   // an attempt that finds itself replaced produces recognisably different outputs
-	OutKinds         bool   // a file-typed output may be missing, a symlink, or a path outside the pipestance (C13)
-	Companions       bool   // stages may write x.idx next to an output file x
-	ChunkRes         bool   // splits return per-chunk resource requests
-	SlowLabel        string // tasks whose label contains this get SlowDiv times less weight
-	SlowDiv          int
-	Restarts         int  // maximal number of restarts the operator performs
-	KeepTrace        bool // keep the full schedule trace (else only a rolling hash)
-	Env              map[string]string
+	Overrides      map[string]map[string]interface{}
+	AllSlow        bool   // every job computes for ten simulated minutes
+	MarkSuperseded bool   // an attempt that finds itself replaced produces recognisably different outputs
+	OutKinds       bool   // a file-typed output may be missing, a symlink, or a path outside the pipestance (C13)
+	Companions     bool   // stages may write x.idx next to an output file x
+	ChunkRes       bool   // splits return per-chunk resource requests
+	SlowLabel      string // tasks whose label contains this get SlowDiv times less weight
+	SlowDiv        int
+	Restarts       int  // maximal number of restarts the operator performs
+	KeepTrace      bool // keep the full schedule trace (else only a rolling hash)
+	Env            map[string]string
 	// Edited invocation for restarts (C15); nil = same.
 	RestartProg func(inc int) *Prog
 }
@@ -891,11 +893,36 @@ func (r *Run) History() *History {
 
 // ReadOuts reads and parses the top-level pipeline's _outs.
 func (r *Run) ReadTopOuts() (interface{}, error) {
-	b, err := os.ReadFile(path.Join(r.PsDir, r.Prog.Top.Callee, "fork0", "_outs"))
+	b, err := r.readMeta(path.Join(r.Prog.Top.Callee, "fork0", "_outs"))
 	if err != nil {
 		return nil, err
 	}
 	return ParseJSON(b)
+}
+
+// readMeta reads a metadata file of the pipestance (path relative to the pipestance
+// directory), from _metadata.zip if mrp --zip has archived it.
+func (r *Run) readMeta(rel string) ([]byte, error) {
+	b, err := os.ReadFile(path.Join(r.PsDir, rel))
+	if err == nil {
+		return b, nil
+	}
+	zr, zerr := zip.OpenReader(path.Join(r.PsDir, "_metadata.zip"))
+	if zerr != nil {
+		return nil, err
+	}
+	defer zr.Close()
+	for _, f := range zr.File {
+		if f.Name == rel {
+			rc, e := f.Open()
+			if e != nil {
+				return nil, e
+			}
+			defer rc.Close()
+			return io.ReadAll(rc)
+		}
+	}
+	return nil, err
 }
 
 func jsonString(v interface{}) string {
